@@ -1108,3 +1108,333 @@ def k_fragment_is_recursive(R, F, S):
                     out.append(dict(kernel='fragment_is_recursive', prop='C17', what=f'{o.kind}: {o.msg}', fragments=fragments_of_model(m, g)))
     R.sample(dict(kernel='fragment_is_recursive', fragments=F, selections_per_fragment=S))
     return out
+
+
+# ---------------------------------------------------------------- input-object members (struct fields, @oneOf variants)
+
+def closure_of(R, parent_suffix, index=0):
+    """(closure function, capture names in order) of `{closure#index}` defined in the function `parent_suffix`"""
+    import re as _re
+    parent = R.fn(parent_suffix)
+    clo = [f for n, f in R.L.funcs.items() if n.startswith(parent.name + '::{closure#%d}' % index) and n.count('{closure#') == parent.name.count('{closure#') + 1]
+    if len(clo) != 1:
+        raise V.Unsupported(f'closure #{index} of {parent_suffix} not found')
+    cf = clo[0]
+    cid = _re.search(r'\{closure@[^}]*\}', cf.params[0][1]).group(0)
+    m = _re.search(_re.escape(cid) + r' \{ ([^}]*) \}', parent.text)
+    names = [x.split(': ')[0].strip() for x in m.group(1).split(', ')] if m else []
+    return cf, cid, names
+
+
+def k_input_member(R, which, maxq):
+    """`generate_struct::{closure#0}` (which='struct') / `generate_enum::{closure#0}` (which='oneof'):
+    wire name, skip attribute, type nesting and Box of one input-object member.
+    The member's target is either a scalar or an input type that is / is not on a list-free cycle."""
+    import vm as _vm
+    req, lst = qual_indices(R)
+    cf, cid, caps = closure_of(R, 'generate_struct' if which == 'struct' else 'generate_enum', 0)
+    norms = R.L.enums['Normalization']
+    out = []
+    for n in range(0, maxq + 1):
+        qs = [z3.BitVec(f'm{which}{n}_{i}', 8) for i in range(n)]
+        fname = z3.String(f'mname_{which}{n}')
+        skip = z3.Bool(f'mskip_{which}{n}')
+        norm = z3.BitVec(f'mnorm_{which}{n}', 8)
+        tkind = z3.BitVec(f'mtk_{which}{n}', 8)       # 0: scalar "S", 1: input I1 (self-recursive), 2: input I2 (not recursive)
+
+        def setup(st, B, qs=qs):
+            for q in qs:
+                st.pc.append(z3.ULT(q, 2))
+            for a, b in zip(qs, qs[1:]):
+                st.pc.append(z3.Not(z3.And(a == req, b == req)))
+            st.pc.append(z3.ULT(norm, len(norms)))
+            st.pc.append(z3.ULT(tkind, 3))
+            if which == 'oneof' and qs:
+                st.pc.append(qs[0] != req)      # @oneOf members are nullable by definition (spec)
+            i_scalar, i_input = B.vidx('TypeId', 'Scalar'), B.vidx('TypeId', 'Input')
+            inp = lambda k: B.variant('TypeId', 'Input', B.newtype('InputId', bv(k, 32)))
+            scal = B.variant('TypeId', 'Scalar', B.newtype('ScalarId', bv(0, 64)))
+            schema = schema_with(B, scalars=['S'], inputs=[('I0', [], False), ('I1', [('me', inp(1), [])], False), ('I2', [('x', scal, [])], False)])
+            tid = SymEnum(z3.If(tkind == 0, bv(i_scalar, 8), bv(i_input, 8)),
+                          {i_scalar: (B.newtype('ScalarId', bv(0, 64)),), i_input: (B.newtype('InputId', z3.If(tkind == 1, bv(1, 32), bv(2, 32))),)})
+            member = Agg(None, [StrV(fname), B.struct('StoredInputFieldType', id=tid, qualifiers=VecV([SymEnum(q, {0: (), 1: ()}) for q in qs]))])
+            bq = B.cell(B.struct('BoundQuery', query=B.cell(empty_query(B)), schema=B.cell(schema)))
+            opts = B.cell(options_value(B, skip_serializing_none=skip, normalization=SymEnum(norm, {i: () for i in range(len(norms))})))
+            cap_vals = {'options': B.cell(opts), 'query': B.cell(bq)}
+            if set(caps) != set(cap_vals):
+                raise V.Unsupported(f'closure captures changed: {caps}')
+            clo = _vm.ClosureV(cid, [cap_vals[c] for c in caps])
+            R.vm.push_call(st, cf, [B.cell(clo), B.cell(member)], None, None)
+        outs, _ = R.explore(f'input member ({which})', setup)
+        eff_qs = ([bv(req, 8)] + qs) if which == 'oneof' else qs
+        ref, _adj = ref_nesting(eff_qs, req, lst) if eff_qs else (z3.StringVal('OT'), None)
+        for o in outs:
+            if o.kind != 'return':
+                m = R.prove('input_member', o, z3.BoolVal(False), 'no panic')
+                if m is not None:
+                    out.append(dict(kernel=f'input_member_{which}', prop='C17', what=f'{o.kind}: {o.msg}', model=dict(name=m.eval(fname, model_completion=True).as_string())))
+                continue
+            attrs, rest = split_attrs(o.value)
+            claims = {}
+            if which == 'struct':
+                ok_decl = len(rest) >= 4 and rest[0] == ('ident', 'pub') and rest[1][0] == 'ident' and rest[2] == ('punct', ':')
+                ident = rest[1][1] if ok_decl else None
+                ty = Tokens(rest[3:]) if ok_decl else None
+            else:
+                ok_decl = len(rest) == 2 and rest[0][0] == 'ident' and rest[1][0] == 'group' and rest[1][1] == PAREN
+                ident = rest[0][1] if ok_decl else None
+                ty = rest[1][2] if ok_decl else None
+            if not ok_decl:
+                claims['C04:decl'] = z3.BoolVal(False)
+            else:
+                c2, merged = wire_name_claims(attrs, ident, fname, None)
+                claims.update(c2)
+                conv = SNAKE_OF(R, fname) if which == 'struct' else CAMEL_OF(R, fname)
+                claims['C11:ident'] = z3.Or(zstr(ident) == conv, zstr(ident) == z3.Concat(conv, z3.StringVal('_')))
+                claims['C11:ident-not-keyword'] = z3.Not(z3.Or(*[zstr(ident) == z3.StringVal(k) for k in RUST_KEYWORDS_REF]))
+                if which == 'struct':
+                    nullable = (qs[0] != req) if qs else z3.BoolVal(True)
+                    has_skip = 'skip_serializing_if' in merged
+                    claims['C04:skip-none'] = (z3.And(skip, nullable) if has_skip else z3.Not(z3.And(skip, nullable)))
+                else:
+                    claims['C04:no-skip-on-variant'] = z3.BoolVal('skip_serializing_if' not in merged)
+                names = type_chain(ty)
+                code = None
+                if names:
+                    code = ''.join({'Option': 'O', 'Vec': 'V', 'Box': 'B'}.get(x, 'T') if isinstance(x, str) else 'T' for x in names)
+                if code is None:
+                    claims['C13:type'] = z3.BoolVal(False)
+                else:
+                    boxed = code.startswith('B')
+                    body = code[1:] if boxed else code
+                    claims['C13:type'] = ref == z3.StringVal(body)
+                    # I1 { me: I1 } is on a list-free cycle: a member of type I1 must be boxed unless it is a list itself
+                    needs = z3.And(tkind == 1, *[q != lst for q in qs])
+                    claims['C12:box'] = z3.Implies(needs, z3.BoolVal(boxed))
+            m = R.prove('input_member', o, z3.And(*claims.values()), f'{which} member')
+            if m is not None:
+                failing = [nm for nm, c in claims.items() if not z3.is_true(m.eval(c, model_completion=True))]
+                out.append(dict(kernel=f'input_member_{which}', prop=(failing[0].split(':')[0] if failing and failing[0][0] == 'C' else 'C04'), what=failing[0] if failing else '?',
+                                model=dict(qualifiers=['R' if m.eval(q, model_completion=True).as_long() == req else 'L' for q in qs],
+                                           name=m.eval(fname, model_completion=True).as_string(),
+                                           converted=m.eval(SNAKE_OF(R, fname) if which == 'struct' else CAMEL_OF(R, fname), model_completion=True).as_string(),
+                                           target=['S', 'I1', 'I2'][m.eval(tkind, model_completion=True).as_long()],
+                                           skip_serializing_none=z3.is_true(m.eval(skip, model_completion=True)),
+                                           normalization=norms[m.eval(norm, model_completion=True).as_long()]),
+                                tokens=repr(o.value)[:500]))
+        R.sample(dict(kernel=f'input_member_{which}', qualifiers=n, paths=len(outs)))
+    return out
+
+
+# ---------------------------------------------------------------- C14: deprecation extraction from SDL directives
+
+def k_find_deprecation(R, ndir, nargs):
+    f = R.fn('find_deprecation')
+    out = []
+    dname = [z3.String(f'fd_dn{i}') for i in range(ndir)]
+    aname = [[z3.String(f'fd_an{i}_{j}') for j in range(nargs)] for i in range(ndir)]
+    akind = [[z3.BitVec(f'fd_ak{i}_{j}', 8) for j in range(nargs)] for i in range(ndir)]
+    aval = [[z3.String(f'fd_av{i}_{j}') for j in range(nargs)] for i in range(ndir)]
+    holder = {}
+
+    def setup(st, B):
+        vkinds = B.L.enums['Value']
+        i_str, i_bool = vkinds.index('String'), vkinds.index('Boolean')
+        holder['i_str'] = i_str
+        dirs = []
+        for i in range(ndir):
+            args = []
+            for j in range(nargs):
+                st.pc.append(z3.Or(akind[i][j] == i_str, akind[i][j] == i_bool))
+                val = SymEnum(akind[i][j], {i_str: (StrV(aval[i][j]),), i_bool: (mk_bool(True),)})
+                args.append(Agg(None, [StrV(aname[i][j]), val]))
+            # argument names are unique within a directive, directives are not repeated (GraphQL validity)
+            for j in range(nargs):
+                for j2 in range(j + 1, nargs):
+                    st.pc.append(aname[i][j] != aname[i][j2])
+            dirs.append(B.struct('Directive', position=Agg(None, [bv(0, 64), bv(0, 64)]), name=StrV(dname[i]), arguments=VecV(args)))
+        for i in range(ndir):
+            for i2 in range(i + 1, ndir):
+                st.pc.append(dname[i] != dname[i2])
+        R.vm.push_call(st, f, [B.slice_of(dirs)], None, None)
+    outs, _ = R.explore(f'find_deprecation({ndir} directives x {nargs} args)', setup)
+    i_str = holder.get('i_str')
+    dep = z3.StringVal('deprecated')
+    rsn = z3.StringVal('reason')
+    for o in outs:
+        if o.kind != 'return':
+            R.inconclusive.append(f'find_deprecation: {o.kind} {o.msg}') if o.kind not in ('panic',) else None
+            continue
+        v = o.value
+        is_dep = z3.Or(*[d == dep for d in dname])
+        # reason: the string value of the `reason` argument of the @deprecated directive
+        has_reason = z3.Or(*[z3.And(dname[i] == dep, aname[i][j] == rsn, akind[i][j] == i_str) for i in range(ndir) for j in range(nargs)])
+        if isinstance(v, SymEnum):
+            R.inconclusive.append('find_deprecation returned a symbolic Option')
+            continue
+        if v.variant == 0:
+            claim = z3.Not(is_dep)
+        else:
+            inner = v.fields[0]
+            if isinstance(inner, SymEnum):
+                R.inconclusive.append('find_deprecation returned a symbolic inner Option')
+                continue
+            if inner.variant == 0:
+                claim = z3.And(is_dep, z3.Not(has_reason))
+            else:
+                got = inner.fields[0].z()
+                claim = z3.And(is_dep, z3.Or(*[z3.And(dname[i] == dep, aname[i][j] == rsn, akind[i][j] == i_str, aval[i][j] == got)
+                                              for i in range(ndir) for j in range(nargs)]))
+        m = R.prove('find_deprecation', o, claim, 'deprecation read from directives')
+        if m is not None:
+            ds = []
+            for i in range(ndir):
+                args = []
+                for j in range(nargs):
+                    nm = m.eval(aname[i][j], model_completion=True).as_string()
+                    if m.eval(akind[i][j], model_completion=True).as_long() == i_str:
+                        args.append((nm, m.eval(aval[i][j], model_completion=True).as_string()))
+                    else:
+                        args.append((nm, True))
+                ds.append((m.eval(dname[i], model_completion=True).as_string(), args))
+            out.append(dict(kernel='find_deprecation', prop='C14', what='deprecation / reason read from the directives differs from the schema', directives=ds, got=repr(v)))
+    R.sample(dict(kernel='find_deprecation', directives=ndir, arguments=nargs, paths=len(outs)))
+    return out
+
+
+# ---------------------------------------------------------------- C06: validation kernels
+
+def abstract_schema(B, st, prefix):
+    """2 objects, 1 interface, 1 union; `implements` and union membership are symbolic bits"""
+    impl = [z3.Bool(f'{prefix}impl{o}') for o in range(2)]
+    memb = [z3.Bool(f'{prefix}memb{o}') for o in range(2)]
+    objs = []
+    for o in range(2):
+        # implements_interfaces: Vec<InterfaceId> of symbolic content: [I0] or [I9] (an id that is not I0)
+        iid = z3.If(impl[o], bv(0, 64), bv(9, 64))
+        objs.append(B.struct('StoredObject', name=StrV(f'O{o}'), fields=VecV(()), implements_interfaces=VecV([B.newtype('InterfaceId', iid)])))
+    iface = B.struct('StoredInterface', name=StrV('I0'), fields=VecV(()))
+    # union variants: Object(0) or Object(7) (not a member) per slot
+    variants = VecV([B.variant('TypeId', 'Object', B.newtype('ObjectId', z3.If(memb[o], bv(o, 32), bv(7 + o, 32)))) for o in range(2)])
+    union = B.struct('StoredUnion', name=StrV('U0'), variants=variants)
+    schema = B.struct('Schema', stored_objects=VecV(objs), stored_fields=VecV(()), stored_interfaces=VecV([iface]), stored_unions=VecV([union]),
+                      stored_scalars=VecV([B.struct('StoredScalar', name=StrV('S'))]), stored_enums=VecV(()), stored_inputs=VecV(()), names=B.btreemap([]),
+                      query_type=none(), mutation_type=none(), subscription_type=none())
+    return schema, dict(impl=impl, memb=memb)
+
+
+def sym_composite(B, st, name):
+    """symbolic composite TypeId among Object(0), Object(1), Interface(0), Union(0); returns (value, code) with code 0..3"""
+    code = z3.BitVec(name, 8)
+    st.pc.append(z3.ULT(code, 4))
+    tk = B.L.enums['TypeId']
+    d = z3.If(z3.ULT(code, 2), bv(tk.index('Object'), 8), z3.If(code == 2, bv(tk.index('Interface'), 8), bv(tk.index('Union'), 8)))
+    val = SymEnum(d, {tk.index('Object'): (B.newtype('ObjectId', z3.If(code == 1, bv(1, 32), bv(0, 32))),),
+                      tk.index('Interface'): (B.newtype('InterfaceId', bv(0, 64)),), tk.index('Union'): (B.newtype('UnionId', bv(0, 64)),)})
+    return val, code
+
+
+def possible(code, o, sv):
+    """is object `o` a possible runtime type of the composite type `code`"""
+    return z3.If(code == 0, z3.BoolVal(o == 0), z3.If(code == 1, z3.BoolVal(o == 1), z3.If(code == 2, sv['impl'][o], sv['memb'][o])))
+
+
+def k_type_conditions(R):
+    """selection::validate_type_conditions: Ok => the spread can apply (possible types intersect)"""
+    f = R.fn('validate_type_conditions')
+    out = []
+    for kind in ('inline', 'spread'):
+        holder = {}
+
+        def setup(st, B, kind=kind):
+            schema, sv = abstract_schema(B, st, f'tc{kind}_')
+            parent_ty, pcode = sym_composite(B, st, f'tc{kind}_parent')
+            sel_ty, scode = sym_composite(B, st, f'tc{kind}_sel')
+            holder.update(sv=sv, pcode=pcode, scode=scode)
+            # fragment 1 is the parent of selection 0; fragment 0 is what a spread refers to
+            frag0 = B.struct('ResolvedFragment', name=StrV('F0'), on=sel_ty, selection_set=VecV(()))
+            frag1 = B.struct('ResolvedFragment', name=StrV('F1'), on=parent_ty, selection_set=VecV([B.newtype('SelectionId', bv(0, 32))]))
+            if kind == 'inline':
+                sel = B.variant('Selection', 'InlineFragment', B.struct('InlineFragment', type_id=sel_ty, selection_set=VecV(())))
+            else:
+                sel = B.variant('Selection', 'FragmentSpread', B.newtype('ResolvedFragmentId', bv(0, 32)))
+            parents = B.btreemap([(B.newtype('SelectionId', bv(0, 32)), B.variant('SelectionParent', 'Fragment', B.newtype('ResolvedFragmentId', bv(1, 32))))])
+            q = B.struct('Query', fragments=VecV([frag0, frag1]), operations=VecV(()), selection_parent_idx=parents, selections=VecV([sel]), variables=VecV(()))
+            bq = B.struct('BoundQuery', query=B.cell(q), schema=B.cell(schema))
+            R.vm.push_call(st, f, [B.newtype('SelectionId', bv(0, 32)), B.cell(bq)], None, None)
+        outs, _ = R.explore(f'validate_type_conditions({kind})', setup)
+        sv, pcode, scode = holder.get('sv'), holder.get('pcode'), holder.get('scode')
+        for o in outs:
+            if o.kind != 'return':
+                continue
+            v = o.value
+            if isinstance(v, SymEnum):
+                R.inconclusive.append('validate_type_conditions: symbolic Result')
+                continue
+            if v.variant == 0:   # Ok
+                # (a condition on the parent type itself is always allowed)
+                can_apply = z3.Or(pcode == scode, *[z3.And(possible(pcode, ob, sv), possible(scode, ob, sv)) for ob in range(2)])
+                m = R.prove('type_conditions', o, can_apply, f'{kind}: accepted spread can apply')
+                if m is not None:
+                    names = ['O0', 'O1', 'I0', 'U0']
+                    out.append(dict(kernel='type_conditions', prop='C06', what='a type condition that can never apply to the parent type is accepted', kind=kind,
+                                    parent=names[m.eval(pcode, model_completion=True).as_long()], condition=names[m.eval(scode, model_completion=True).as_long()],
+                                    implements=[z3.is_true(m.eval(x, model_completion=True)) for x in sv['impl']],
+                                    members=[z3.is_true(m.eval(x, model_completion=True)) for x in sv['memb']]))
+            else:
+                R.obligations += 1
+                R.discharged += 1
+        R.sample(dict(kernel='type_conditions', kind=kind, paths=len(outs)))
+    return out
+
+
+def k_resolve_selection(R):
+    """query::resolve_selection dispatch: a leaf type with a sub-selection and a composite type without one must be errors"""
+    f = R.fn('resolve_selection')
+    out = []
+    tk = R.L.enums['TypeId']
+    for items in ('empty', 'typename'):
+        holder = {}
+
+        def setup(st, B, items=items):
+            schema, sv = abstract_schema(B, st, f'rs{items}_')
+            code = z3.BitVec(f'rs{items}_on', 8)     # 0,1 objects; 2 interface; 3 union; 4 scalar; 5 enum
+            st.pc.append(z3.ULT(code, 6))
+            holder['code'] = code
+            d = z3.If(z3.ULT(code, 2), bv(tk.index('Object'), 8), z3.If(code == 2, bv(tk.index('Interface'), 8), z3.If(code == 3, bv(tk.index('Union'), 8),
+                      z3.If(code == 4, bv(tk.index('Scalar'), 8), bv(tk.index('Enum'), 8)))))
+            on = SymEnum(d, {tk.index('Object'): (B.newtype('ObjectId', z3.If(code == 1, bv(1, 32), bv(0, 32))),), tk.index('Interface'): (B.newtype('InterfaceId', bv(0, 64)),),
+                             tk.index('Union'): (B.newtype('UnionId', bv(0, 64)),), tk.index('Scalar'): (B.newtype('ScalarId', bv(0, 64)),), tk.index('Enum'): (B.newtype('EnumId', bv(0, 64)),)})
+            pos = Agg(None, [bv(0, 64), bv(0, 64)])
+            sel_items = []
+            if items == 'typename':
+                fld = B.struct('query::Field', position=pos, alias=none(), name=StrV('__typename'), arguments=VecV(()), directives=VecV(()),
+                               selection_set=B.struct('query::SelectionSet', span=Agg(None, [pos, pos]), items=VecV(())))
+                sel_items.append(Agg(R.L.enums['Selection'].index('Field'), [fld], 'Selection'))
+            sset = B.struct('query::SelectionSet', span=Agg(None, [pos, pos]), items=VecV(sel_items))
+            # the parent is field selection 0 of an otherwise empty query
+            parent_sel = B.variant('Selection', 'Field', B.struct('SelectedField', alias=none(), field_id=B.newtype('StoredFieldId', bv(0, 64)), selection_set=VecV(())))
+            q = B.struct('Query', fragments=VecV(()), operations=VecV(()), selection_parent_idx=B.btreemap([]), selections=VecV([parent_sel]), variables=VecV(()))
+            parent = B.variant('SelectionParent', 'Field', B.newtype('SelectionId', bv(0, 32)))
+            R.vm.push_call(st, f, [B.cell(q), on, B.cell(sset), parent, B.cell(schema)], None, None)
+        outs, _ = R.explore(f'resolve_selection({items})', setup)
+        code = holder.get('code')
+        for o in outs:
+            if o.kind != 'return':
+                continue
+            v = o.value
+            if isinstance(v, SymEnum):
+                R.inconclusive.append('resolve_selection: symbolic Result')
+                continue
+            if v.variant == 0:
+                claim = z3.ULT(code, 4) if items == 'typename' else z3.UGE(code, 4)
+                m = R.prove('resolve_selection', o, claim, f'{items} sub-selection')
+                if m is not None:
+                    names = ['object', 'object', 'interface', 'union', 'scalar', 'enum']
+                    out.append(dict(kernel='resolve_selection', prop='C06', type_kind=names[m.eval(code, model_completion=True).as_long()],
+                                    what=('a composite field without sub-selection is accepted' if items == 'empty' else 'a leaf field with a sub-selection is accepted')))
+            else:
+                R.obligations += 1
+                R.discharged += 1
+        R.sample(dict(kernel='resolve_selection', sub_selection=items, paths=len(outs)))
+    return out
